@@ -2,7 +2,7 @@ package gen
 
 import "fmt"
 
-const helperDecls = `func mks(n int) []int {
+const HelperDecls = `func mks(n int) []int {
 	s := make([]int, 0, n+2)
 	for i := 0; i < n; i++ {
 		s = append(s, i*10+1)
